@@ -245,5 +245,9 @@ def err_name(exc):
 def assert_repo():
     """The implementation under test must be /repo's working tree."""
     p = os.path.realpath(mongomock.__file__)
-    if not p.startswith('/repo/'):
-        raise RuntimeError('mongomock imported from %s, not /repo' % p)
+    # development only: VERIF_DEV_REPO=<scratch worktree> (with PYTHONPATH pointing there) lets a
+    # seeded change be tried without touching /repo; the registered commands never set it
+    dev = os.environ.get('VERIF_DEV_REPO')
+    root = os.path.realpath(dev) + '/' if dev else '/repo/'
+    if not p.startswith(root):
+        raise RuntimeError('mongomock imported from %s, not %s' % (p, root))
